@@ -205,7 +205,12 @@ func (m *Minifier) apply(vis *minifyVisitor) (madeReplacements bool) {
 	// sort by depth
 	slices.SortStableFunc(replacements, func(a, b *stats) int {
 		if a.depth == b.depth {
-			return strings.Compare(b.enclosingTypeName, a.enclosingTypeName)
+			if c := strings.Compare(b.enclosingTypeName, a.enclosingTypeName); c != 0 {
+				return c
+			}
+			// the replacements come out of a map: without a total order the fragment names
+			// (A, B, ...) of equally deep selection sets on one type would follow map iteration order
+			return a.items[0].selectionSet - b.items[0].selectionSet
 		}
 		return b.depth - a.depth
 	})
